@@ -27,7 +27,7 @@ func init() {
 const c06Mod = "example.com/c06mod"
 
 var c06Pkgs = map[string]map[string]string{
-	"geom":    {"g.go": "package geom\n\ntype Point struct {\n\tX uint64\n\tY uint64\n}\n\nfunc Origin() Point {\n\treturn Point{X: 0, Y: 0}\n}\n\nfunc Norm1(p Point) uint64 {\n\treturn p.X + p.Y\n}\n"},
+	"geom":    {"v.go": "package geom\n\nfunc SumAll(xs ...uint64) uint64 {\n\tvar t uint64 = 0\n\tfor _, x := range xs {\n\t\tt = t + x\n\t}\n\treturn t\n}\n", "g.go": "package geom\n\ntype Point struct {\n\tX uint64\n\tY uint64\n}\n\nfunc Origin() Point {\n\treturn Point{X: 0, Y: 0}\n}\n\nfunc Norm1(p Point) uint64 {\n\treturn p.X + p.Y\n}\n"},
 	"usegeom": {"u.go": "package usegeom\n\nimport \"example.com/c06mod/geom\"\n\nfunc Shift(p geom.Point, d uint64) geom.Point {\n\treturn geom.Point{X: p.X + d, Y: p.Y}\n}\n\nfunc GetX(p *geom.Point) uint64 {\n\treturn p.X\n}\n"},
 	"forward": {"a.go": "package forward\n\nfunc Top() uint64 {\n\treturn helperB() + helperA() + helperC()\n}\n", "z.go": "package forward\n\nfunc helperA() uint64 {\n\treturn 1\n}\n\nfunc helperB() uint64 {\n\treturn 2\n}\n\nfunc helperC() uint64 {\n\treturn helperA() + 3\n}\n"},
 	"failing": {"f.go": "package failing\n\nfunc Fine() uint64 {\n\treturn 1\n}\n\nfunc Bad(x uint64) uint64 {\n\tswitch x {\n\tcase 1:\n\t\treturn 1\n\t}\n\treturn 2\n}\n\nfunc AlsoBad(x uint64) uint64 {\n\tdefer func() {}()\n\treturn x\n}\n"},
@@ -35,7 +35,7 @@ var c06Pkgs = map[string]map[string]string{
 		"m.go": "package failmulti\n\nfunc BadM(x uint64) uint64 {\n\tswitch x {\n\tcase 1:\n\t\treturn 1\n\t}\n\treturn 2\n}\n\nfunc M1() uint64 {\n\treturn A1() + 1\n}\n",
 		"q.go": "package failmulti\n\nfunc BadQ(x uint64) uint64 {\n\tvar y uint64 = x\n\tif y > 2 {\n\t\tgoto end\n\t}\n\ty = 100\nend:\n\treturn y\n}\n",
 		"z.go": "package failmulti\n\nfunc BadZ(x uint64) uint64 {\n\tx <<= 3\n\treturn x\n}\n\nfunc Z1() uint64 {\n\treturn M1() + 1\n}\n"},
-	"plain":   {"p.go": "package plain\n\n// Twice doubles\nfunc Twice(x uint64) uint64 {\n\treturn x + x\n}\n"},
+	"plain":   {"pv.go": "package plain\n\nfunc MaxOf(first uint64, rest ...uint64) uint64 {\n\tvar m uint64 = first\n\tfor _, x := range rest {\n\t\tif x > m {\n\t\t\tm = x\n\t\t}\n\t}\n\treturn m\n}\n", "p.go": "package plain\n\n// Twice doubles\nfunc Twice(x uint64) uint64 {\n\treturn x + x\n}\n"},
 	"usedisk": {"d.go": "package usedisk\n\nimport \"github.com/goose-lang/goose/machine/disk\"\n\nfunc Sz() uint64 {\n\treturn disk.BlockSize\n}\n"},
 	"multi":   {"m1.go": "package multi\n\nfunc M1() uint64 {\n\treturn M2() + 1\n}\n", "m2.go": "package multi\n\nfunc M2() uint64 {\n\treturn 2\n}\n"},
 }
